@@ -137,4 +137,31 @@ class Histories(SubCheck):
         c03.Random().selftest(env)
 
 
-SUBCHECKS = [Histories()]
+class FanoutExpireUnderContention(SubCheck):
+    """FanoutCache.expire()/cull() while another writer holds, releases or repeatedly takes a shard's lock: every expired
+    item of every shard must still be removed and counted (the total equals that of an undisturbed twin)."""
+
+    name = 'fanout_expire_under_contention'
+    exhaustive = True
+
+    def examples(self, tier):
+        return 0
+
+    def enumerate(self, tier):
+        for name in ('expire', 'cull'):
+            for inj in (('release', 1), ('release', 2), ('release', 3), ('flap',)):
+                for val in ('inline', 'file'):
+                    yield {'cell': ('fanout', 'loop:' + name, inj, val, True, 'fast')}
+
+    def execute(self, case, env):
+        from ..common import Violation
+        from . import c14
+
+        cell = tuple(tuple(x) if isinstance(x, list) else x for x in case['cell'])
+        try:
+            return c14.execute_cell(env, cell, {})
+        except Violation as v:
+            raise Violation('C04/fanout-expire-incomplete/' + v.signature.split('/', 1)[1], v.detail)
+
+
+SUBCHECKS = [Histories(), FanoutExpireUnderContention()]
